@@ -278,6 +278,13 @@ class Endpoint:
                 # parameters / headers this endpoint does not know are ignored, but logged
                 entry["x_param"] = q.get("x-extra", [])
                 entry["x_header"] = self.headers.get("X-Extra")
+                entry["auth"] = self.headers.get("Authorization")
+                if path == "/sparql":
+                    # one endpoint for both protocols (SPARQLUpdateStore.open("url")): an update is a POST that
+                    # carries application/sparql-update or an `update` form field, everything else is a query
+                    path = "/update" if (ctype == "application/sparql-update" or "update" in q) else "/query"
+                    entry["single_endpoint"] = True
+                    entry["path"] = path
                 with ep.lock:
                     ep.log.append(entry)
                     try:
